@@ -10,7 +10,9 @@ def json_processor(entity):
         raise cherrypy.HTTPError(411)
 
     body = entity.fp.read()
-    with cherrypy.HTTPError.handle(ValueError, 400, 'Invalid JSON document'):
+    # RecursionError: a document nested deeper than the decoder can follow
+    with cherrypy.HTTPError.handle(
+            (ValueError, RecursionError), 400, 'Invalid JSON document'):
         cherrypy.serving.request.json = json.decode(body.decode('utf-8'))
 
 
